@@ -60,6 +60,9 @@ PY_CTX = {
     "method": (["class K{N}:", "    def run(self):", "        return {L}"], 2, False),
     "lambda": (["def {N}():", "    g = lambda v: v + {L}", "    return g"], 1, False),
     "upper-constant": (["MAX_{U} = {L}"], 0, True),
+    "upper-constant-private": (["_MAX_{U} = {L}"], 0, True),
+    "upper-constant-dunder": (["__MAX_{U}_V2 = {L}"], 0, True),
+    "upper-constant-digit": (["MAX2_{U} = {L}"], 0, True),
     "string-repeat": (["def {N}():", "    return '-' * {L}"], 1, True),
 }
 PY_RANGE = {
@@ -80,6 +83,9 @@ TS_CTX = {
     "arrow": (["const {N} = (v) => v + {L};"], 0, False),
     "method": (["class K{N} {{", "  run() {{", "    return {L};", "  }}", "}}"], 2, False),
     "upper-constant": (["const MAX_{U} = {L};"], 0, True),
+    "upper-constant-private": (["const _MAX_{U} = {L};"], 0, True),
+    "upper-constant-digit": (["const MAX2_{U} = {L};"], 0, True),
+    "upper-constant-export": (["export const LIMIT_{U} = {L};"], 0, True),
     "enum-member": (["enum E{N} {{", "  ACTIVE = {L},", "}}"], 1, True),
 }
 TS_NONLIT = ["function {N}() {{\n  const flag = true;\n  return flag && false;\n}}", "function {N}() {{\n  return 'abc12345';\n}}", "function {N}(item2, other3) {{\n  return item2 + other3;\n}}", "function {N}() {{\n  // 98765 is only a comment\n  return null;\n}}"]
@@ -169,6 +175,8 @@ def items(tier: str, seed: int):
         out.append({"kind": "pairs", "lang": lang, "all": tier == "thorough"})
     out.append({"kind": "range", "msi": [1, 3, 10, 20] if tier == "thorough" else [3, 10]})
     out.append({"kind": "filenames"})
+    for lang in LANGS:
+        out.append({"kind": "lang-section", "lang": lang})
     return out
 
 
@@ -347,6 +355,66 @@ def run_item(item) -> Acc:
             allowed = [0, 1]
             vs, r = _lint("py", text, allowed, msi=msi)
             _judge(acc, "py", text, exp, allowed, f"msi={msi}", vs, r, msi=msi)
+    elif k == "lang-section":
+        # a per-language section overrides the top-level value for files of that language and only
+        # for them; oracle (no documentation needed): section L over any top-level list T behaves
+        # exactly like top-level L alone, for every L of a shrinking chain down to the empty list;
+        # a section for ANOTHER language changes nothing
+        lang = item["lang"]
+        key = {"py": "python", "ts": "typescript", "js": "javascript", "rs": "rust"}[lang]
+        other = "rust" if lang != "rs" else "python"
+        ext, ctxs, _l, _n = LANGS[lang]
+        pool = [("7", 7), ("42", 42), ("5", 5), ("100", 100), ("3600", 3600), ("3.14", 3.14)]
+        snippets = [(c, lt, v, ctxs[c][0], ctxs[c][1], ctxs[c][2]) for c in ("return", "call-arg") for (lt, v) in pool]
+        text, exp = _build(lang, snippets)
+        fname = f"mod{ext}"
+        chain = [DOC_DEFAULT + [42, 3.14], DOC_DEFAULT, [5, 100, 7], [5], []]
+
+        def raw(section):
+            root = project({fname: text, ".thailint.yaml": yaml_dump({"magic-numbers": section})})
+            r = obs.cli_json(["magic-numbers", fname], root)
+            remove(root)
+            return None if r["violations"] is None else sorted((v["line"], v["message"]) for v in r["violations"] if v["rule_id"].startswith("magic-numbers"))
+
+        for lst in chain:
+            ref = raw({"allowed_numbers": lst})
+            acc.case()
+            for tname, top in (("top-empty", []), ("top-default", DOC_DEFAULT), ("top-absent", None)):
+                section = {key: {"allowed_numbers": lst}}
+                if top is not None:
+                    section["allowed_numbers"] = top
+                got = raw(section)
+                acc.case()
+                acc.edge()
+                acc.valid()
+                acc.nt((lang, "lang-section", len(lst), tname))
+                if got != ref:
+                    acc.fail({"check": "language-section", "lang": lang, "mode": "section-differs-from-same-list-at-top-level", "list": "empty" if not lst else "non-empty"}, {"lang": lang, "text": text, "section": section}, ref and ref[:4], got and got[:4], f"magic-numbers.{key}.allowed_numbers={lst} must act like allowed_numbers={lst}")
+                # a section of another language must not matter
+                if top is not None:
+                    got2 = raw({"allowed_numbers": top, other: {"allowed_numbers": lst}})
+                    ref2 = raw({"allowed_numbers": top})
+                    acc.case(2)
+                    acc.edge()
+                    if got2 != ref2:
+                        acc.fail({"check": "language-section", "lang": lang, "mode": "other-language-section-applies"}, {"lang": lang, "text": text, "section": {"allowed_numbers": top, other: {"allowed_numbers": lst}}}, ref2 and ref2[:4], got2 and got2[:4])
+        if lang == "py":
+            rtext, _e = _build("py", [(f"range@{n}", str(n), n, PY_RANGE["range"][0], PY_RANGE["range"][1], False) for n in (2, 3, 4, 9, 10, 11)])
+            for msi in (10, 3, 1):
+                def rawr(section):
+                    root = project({"mod.py": rtext, ".thailint.yaml": yaml_dump({"magic-numbers": section})})
+                    r = obs.cli_json(["magic-numbers", "mod.py"], root)
+                    remove(root)
+                    return None if r["violations"] is None else sorted((v["line"], v["message"]) for v in r["violations"])
+                ref = rawr({"allowed_numbers": [0], "max_small_integer": msi})
+                for top in (1, 20):
+                    got = rawr({"allowed_numbers": [0], "max_small_integer": top, "python": {"max_small_integer": msi}})
+                    acc.case(2)
+                    acc.edge()
+                    acc.valid()
+                    acc.nt(("py", "lang-section-msi", msi, top))
+                    if got != ref:
+                        acc.fail({"check": "language-section", "lang": "py", "mode": "max_small_integer-section-differs-from-top-level"}, {"lang": "py", "text": rtext, "section": {"max_small_integer": top, "python": {"max_small_integer": msi}}}, ref, got)
     elif k == "filenames":
         body = {"py": "def f():\n    return 42\n", "ts": "function f() {\n  return 42;\n}\n"}
         names = {
@@ -374,6 +442,24 @@ def replay_case(case) -> list[dict]:
         cfg["magic-numbers"]["allowed_numbers"] = case["allowed_numbers"]
     if case.get("max_small_integer"):
         cfg["magic-numbers"]["max_small_integer"] = case["max_small_integer"]
+    if case.get("section"):
+        cfg = {"magic-numbers": case["section"]}
+        flat = {k_: v for k_, v in case["section"].items() if not isinstance(v, dict)}
+        okey, over = [(k_, v) for k_, v in case["section"].items() if isinstance(v, dict)][0]
+        if okey != {"py": "python", "ts": "typescript", "js": "javascript", "rs": "rust"}[lang]:
+            over = {}  # a section of another language: must equal the top-level values alone
+        ra = project({fname: case["text"], ".thailint.yaml": yaml_dump(cfg)})
+        rb = project({fname: case["text"], ".thailint.yaml": yaml_dump({"magic-numbers": {**flat, **over}})})
+        a = obs.cli_subprocess(["magic-numbers", "--format", "json", fname], ra)
+        b = obs.cli_subprocess(["magic-numbers", "--format", "json", fname], rb)
+        la = sorted((v["line"], v["message"]) for v in obs.parse_json_out(a["stdout"]) or [])
+        lb = sorted((v["line"], v["message"]) for v in obs.parse_json_out(b["stdout"]) or [])
+        print(f"config A: {cfg}\n -> {len(la)} violations\nconfig B (same values at top level): {{'magic-numbers': {{**flat, **over}}}}\n -> {len(lb)} violations")
+        remove(ra)
+        remove(rb)
+        if la != lb:
+            acc.fail({"replayed": True}, case, lb[:4], la[:4])
+        return acc.failures
     root = project({fname: case["text"], ".thailint.yaml": yaml_dump(cfg)})
     r = obs.cli_subprocess(["magic-numbers", "--format", "json", fname], root)
     e = case.get("expect")
